@@ -1,12 +1,18 @@
-"""Alpha-normalisation of local variable names.
+"""Alpha-normalisation of names that are private to a function.
 
-Rules are written against the local names used on the pinned tree.  To keep them
-independent of a mere renaming of locals, each function's locals are mapped back -
-positionally, by order of first binding - to the names recorded in localnames.json
-(generated from the pinned tree by tools/gen_localnames.py).  The mapping is applied
-only when the function binds the same number of locals through the same sequence of
-binding constructs and no name would collide; otherwise the function is left as it
-is.  Renaming never changes structure, so it cannot hide a behavioural change."""
+Rules are written against the names used on the pinned tree.  To keep them independent of a mere renaming, the
+following names are mapped back - positionally, by order of first binding - to the names recorded in localnames.json
+(generated from the pinned tree, in the loader's normal form, by tools/gen_localnames.py):
+
+  * local variables of a function (assignment, for / with / except targets, comprehension variables),
+  * functions nested in it, and - scope by scope - the parameters and locals of those nested functions and lambdas,
+  * the parameters of *private* functions / methods (leading underscore), together with the keyword arguments of the
+    calls to them inside the module.
+
+A scope is renamed only when it binds the same number of names through the same sequence of binding constructs as on
+the pinned tree and no new name collides with a name already used there; otherwise it is left as it is.  Renaming is
+scope-aware (a nested function that rebinds a name shadows the outer one).  Renaming never changes structure, so it
+cannot hide a behavioural change."""
 from __future__ import annotations
 
 import ast
@@ -15,35 +21,61 @@ import os
 from typing import Dict, List, Optional, Tuple
 
 TABLE_PATH = os.path.join(os.path.dirname(os.path.abspath(__file__)), "localnames.json")
+FUNCS = (ast.FunctionDef, ast.AsyncFunctionDef, ast.Lambda)
 
 
 def _params(fn) -> set:
+    return set(_param_list(fn))
+
+
+def _param_list(fn) -> List[str]:
     a = fn.args
-    out = {x.arg for x in a.posonlyargs + a.args + a.kwonlyargs}
-    if a.vararg:
-        out.add(a.vararg.arg)
-    if a.kwarg:
-        out.add(a.kwarg.arg)
+    return [x.arg for x in a.posonlyargs + a.args + a.kwonlyargs] + ([a.vararg.arg] if a.vararg else []) + ([a.kwarg.arg] if a.kwarg else [])
+
+
+def _scope_nodes(fn: ast.AST):
+    """nodes that belong to fn's own scope (not descending into nested functions / lambdas; their definitions are yielded)"""
+    stack = list(ast.iter_child_nodes(fn))
+    while stack:
+        n = stack.pop()
+        yield n
+        if isinstance(n, FUNCS):
+            # decorators / defaults / annotations are evaluated in the enclosing scope
+            for d in getattr(n, "decorator_list", []):
+                stack.append(d)
+            a = n.args
+            stack.extend(a.defaults)
+            stack.extend([d for d in a.kw_defaults if d is not None])
+            continue
+        stack.extend(ast.iter_child_nodes(n))
+
+
+def nested_scopes(fn: ast.AST) -> List[ast.AST]:
+    """functions / lambdas directly nested in fn's scope, in source order"""
+    out = [n for n in _scope_nodes(fn) if isinstance(n, FUNCS)]
+    out.sort(key=lambda n: (getattr(n, "lineno", 0), getattr(n, "col_offset", 0)))
     return out
 
 
-def binding_sequence(fn: ast.AST) -> Tuple[List[str], List[str]]:
-    """ordered (by source position) distinct local names bound inside `fn` (nested
-    functions included, parameters excluded) with the kind of their first binding"""
-    params = set(_params(fn))
-    for n in ast.walk(fn):
-        if n is not fn and isinstance(n, (ast.FunctionDef, ast.AsyncFunctionDef, ast.Lambda)):
-            params |= _params(n)
+def scope_bindings(fn: ast.AST, is_nested: bool) -> Tuple[List[str], List[str]]:
+    """ordered distinct names bound in fn's own scope with the kind of their first binding.  For a nested scope the
+    parameters come first (kind nparam); for an outer function parameters are not included."""
     parents: Dict[int, ast.AST] = {}
-    for n in ast.walk(fn):
+    own = list(_scope_nodes(fn))
+    for n in [fn] + own:
         for c in ast.iter_child_nodes(n):
             parents[id(c)] = n
-    glob = set()
-    for n in ast.walk(fn):
+    declared = set()
+    for n in own:
         if isinstance(n, (ast.Global, ast.Nonlocal)):
-            glob |= set(n.names)
+            declared |= set(n.names)
     events = []
-    for n in ast.walk(fn):
+    if is_nested:
+        a = fn.args
+        for i, x in enumerate(a.posonlyargs + a.args + a.kwonlyargs + ([a.vararg] if a.vararg else []) + ([a.kwarg] if a.kwarg else [])):
+            events.append((getattr(fn, "lineno", 0), -1000 + i, x.arg, "nparam"))
+    skip = set() if is_nested else _params(fn)
+    for n in own:
         if isinstance(n, ast.Name) and isinstance(n.ctx, ast.Store):
             p = n
             kind = "assign"
@@ -63,20 +95,48 @@ def binding_sequence(fn: ast.AST) -> Tuple[List[str], List[str]]:
             events.append((n.lineno, n.col_offset, n.id, kind))
         elif isinstance(n, ast.ExceptHandler) and n.name:
             events.append((n.lineno, n.col_offset, n.name, "except"))
+        elif isinstance(n, (ast.FunctionDef, ast.AsyncFunctionDef)):
+            events.append((n.lineno, n.col_offset, n.name, "def"))
     events.sort()
     names: List[str] = []
     kinds: List[str] = []
     for _, _, name, kind in events:
-        if name in params or name in glob or name == "_" or name in names:
+        if name in skip or name in declared or name == "_" or name in names:
             continue
         names.append(name)
         kinds.append(kind)
     return names, kinds
 
 
+def describe(fn: ast.AST, is_nested: bool = False) -> dict:
+    names, kinds = scope_bindings(fn, is_nested)
+    d = {"names": names, "kinds": kinds}
+    nested = [describe(n, True) for n in nested_scopes(fn)]
+    if nested:
+        d["nested"] = nested
+    return d
+
+
+def binding_sequence(fn: ast.AST) -> Tuple[List[str], List[str]]:
+    """flattened (outer scope, then nested scopes in order) - kept for the sweeps"""
+    d = describe(fn)
+    names, kinds = list(d["names"]), list(d["kinds"])
+
+    def rec(x):
+        for n in x.get("nested", []):
+            names.extend(n["names"])
+            kinds.extend(n["kinds"])
+            rec(n)
+    rec(d)
+    return names, kinds
+
+
 class _Renamer(ast.NodeTransformer):
-    def __init__(self, mapping: Dict[str, str]):
+    """renames the names of ONE scope inside that scope's subtree; nested scopes that bind a name themselves shadow it"""
+
+    def __init__(self, mapping: Dict[str, str], root):
         self.m = mapping
+        self.root = root
 
     def visit_Name(self, n):
         if n.id in self.m:
@@ -88,6 +148,39 @@ class _Renamer(ast.NodeTransformer):
             n.name = self.m[n.name]
         self.generic_visit(n)
         return n
+
+    def visit_arg(self, n):
+        return n
+
+    def _enter(self, n):
+        if n is self.root:
+            # parameters of the root scope (nested function being renamed)
+            a = n.args
+            for x in a.posonlyargs + a.args + a.kwonlyargs + ([a.vararg] if a.vararg else []) + ([a.kwarg] if a.kwarg else []):
+                if x.arg in self.m:
+                    x.arg = self.m[x.arg]
+            self.generic_visit(n)
+            return n
+        if isinstance(n, (ast.FunctionDef, ast.AsyncFunctionDef)) and n.name in self.m:
+            n.name = self.m[n.name]
+        own, _ = scope_bindings(n, True)
+        shadow = set(own) & set(self.m)
+        if shadow:
+            sub = _Renamer({k: v for k, v in self.m.items() if k not in shadow}, self.root)
+            # defaults / decorators belong to the enclosing scope
+            for d in getattr(n, "decorator_list", []):
+                self.visit(d)
+            n.args.defaults = [self.visit(d) for d in n.args.defaults]
+            n.args.kw_defaults = [self.visit(d) if d is not None else None for d in n.args.kw_defaults]
+            if isinstance(n.body, list):
+                n.body = [sub.visit(s) for s in n.body]
+            else:
+                n.body = sub.visit(n.body)
+            return n
+        self.generic_visit(n)
+        return n
+
+    visit_FunctionDef = visit_AsyncFunctionDef = visit_Lambda = _enter
 
 
 def outer_functions(tree: ast.Module):
@@ -122,30 +215,84 @@ def table() -> dict:
     return _table
 
 
-def normalise_module(relpath: str, tree: ast.Module) -> List[str]:
-    """rename locals of the module's functions back to the recorded names; returns the
-    list of functions that were alpha-normalised"""
+class _ParamRenamer(ast.NodeTransformer):
+    def __init__(self, mapping: Dict[str, str]):
+        self.m = mapping
+
+    def visit_Name(self, n):
+        if n.id in self.m:
+            n.id = self.m[n.id]
+        return n
+
+    def visit_arg(self, n):
+        if n.arg in self.m:
+            n.arg = self.m[n.arg]
+        return n
+
+
+def normalise_private_params(relpath: str, tree: ast.Module) -> List[str]:
+    """parameters of private functions (leading underscore) are an implementation detail: when such a function has the
+    same number of parameters as on the pinned tree but other names, the pinned names are restored - in the function and
+    in the keyword arguments of calls to it inside the module"""
     tab = table().get(relpath, {})
     done = []
     for q, fn in outer_functions(tree):
         ent = tab.get(q)
-        if not ent:
+        if not ent or "params" not in ent or not fn.name.startswith("_") or fn.name.startswith("__"):
             continue
-        names, kinds = binding_sequence(fn)
-        if names == ent["names"]:
+        cur = _param_list(fn)
+        old = ent["params"]
+        if cur == old or len(cur) != len(old):
             continue
-        if len(names) != len(ent["names"]) or kinds != ent["kinds"]:
+        mapping = {a: b for a, b in zip(cur, old) if a != b}
+        used = {n.id for n in ast.walk(fn) if isinstance(n, ast.Name)} | set(cur)
+        if any(t in used and t not in mapping for t in mapping.values()) or len(set(mapping.values())) != len(mapping):
             continue
-        mapping = {a: b for a, b in zip(names, ent["names"]) if a != b}
-        if not mapping:
-            continue
-        # no collision: a target name must not already denote something else in the function
-        used = {n.id for n in ast.walk(fn) if isinstance(n, ast.Name)} | _params(fn)
-        targets = set(mapping.values())
-        if any(t in used and t not in mapping for t in targets):
-            continue
-        if len(set(mapping.values())) != len(mapping):
-            continue
-        _Renamer(mapping).visit(fn)
+        _ParamRenamer(mapping).visit(fn)
+        for c in ast.walk(tree):
+            if isinstance(c, ast.Call):
+                f = c.func
+                nm = f.attr if isinstance(f, ast.Attribute) else f.id if isinstance(f, ast.Name) else None
+                if nm == fn.name:
+                    for k in c.keywords:
+                        if k.arg in mapping:
+                            k.arg = mapping[k.arg]
         done.append(q)
+    return done
+
+
+def _rename_scope(fn, ent: dict, is_nested: bool) -> bool:
+    """rename one scope (and, recursively, its nested scopes); True if anything was renamed"""
+    changed = False
+    names, kinds = scope_bindings(fn, is_nested)
+    want = ent.get("names", [])
+    if names != want and len(names) == len(want) and kinds == ent.get("kinds", []):
+        mapping = {a: b for a, b in zip(names, want) if a != b}
+        used = {n.id for n in ast.walk(fn) if isinstance(n, ast.Name)} | {p for f in [fn] + [x for x in ast.walk(fn) if isinstance(x, FUNCS)] for p in _param_list(f)}
+        if mapping and not any(t in used and t not in mapping for t in mapping.values()) and len(set(mapping.values())) == len(mapping):
+            r = _Renamer(mapping, fn)
+            if is_nested:
+                r._enter(fn)
+            else:
+                fn.body = [r.visit(s) for s in fn.body]
+            changed = True
+    subs = nested_scopes(fn)
+    ents = ent.get("nested", [])
+    if len(subs) == len(ents):
+        for s, e in zip(subs, ents):
+            if _rename_scope(s, e, True):
+                changed = True
+    return changed
+
+
+def normalise_module(relpath: str, tree: ast.Module) -> List[str]:
+    """rename private names of the module's functions back to the recorded names; returns the functions touched"""
+    tab = table().get(relpath, {})
+    done = ["params:" + x for x in normalise_private_params(relpath, tree)]
+    for q, fn in outer_functions(tree):
+        ent = tab.get(q)
+        if not ent or "names" not in ent:
+            continue
+        if _rename_scope(fn, ent, False):
+            done.append(q)
     return done
